@@ -8,8 +8,10 @@ d = "/verif/seeded/%s" % m.get("id", k)
 os.makedirs(d + "/demo", exist_ok=True)
 shutil.copy(src + "/patch.diff", d + "/patch.diff")
 for f in os.listdir(src):
-    if f in ("NOTES.md", "confirm-clean.out", "confirm-mut.out") or f.startswith("demo.") or f.endswith(".c"):
+    if f in ("NOTES.md", "confirm-clean.out", "confirm-mut.out") or f.startswith("demo.") or f.endswith((".c", ".py", ".rs")):
         shutil.copy(os.path.join(src, f), d + "/demo/" + f)
+    elif f == "demo-crate" and os.path.isdir(os.path.join(src, f)):
+        shutil.copytree(os.path.join(src, f), d + "/demo/demo-crate", dirs_exist_ok=True, ignore=shutil.ignore_patterns("target", "Cargo.lock"))
 meta = dict(id=m.get("id", k), origin="independent sub-agent given only the property text and a scratch worktree of /repo")
 meta.update(m)
 meta.setdefault("confirmed", "by the framework author in the scratch worktree: git diff == patch.diff; builds; tools/baseline.sh <worktree>: 254/254 stable tests pass; the demonstration fails with the change (demo/confirm-mut.out) and passes on a clean checkout (demo/confirm-clean.out)")
